@@ -125,10 +125,19 @@ impl PartialEq for Instant {
 impl PartialOrd for Instant {
     #[verifier::external_body]
     fn partial_cmp(&self, other: &Self) -> Option<core::cmp::Ordering> { unimplemented!() }
+    // `reached` is downward closed: an instant not later than a reached instant has been reached
     #[verifier::external_body]
-    fn gt(&self, other: &Self) -> (b: bool) ensures b && reached(*self) ==> reached(*other) { unimplemented!() }
+    fn gt(&self, other: &Self) -> (b: bool)
+        ensures b ==> (reached(*self) ==> reached(*other)), !b ==> (reached(*other) ==> reached(*self)) { unimplemented!() }
     #[verifier::external_body]
-    fn lt(&self, other: &Self) -> (b: bool) ensures !b && reached(*self) ==> reached(*other) { unimplemented!() }
+    fn lt(&self, other: &Self) -> (b: bool)
+        ensures b ==> (reached(*other) ==> reached(*self)), !b ==> (reached(*self) ==> reached(*other)) { unimplemented!() }
+    #[verifier::external_body]
+    fn ge(&self, other: &Self) -> (b: bool)
+        ensures b ==> (reached(*self) ==> reached(*other)), !b ==> (reached(*other) ==> reached(*self)) { unimplemented!() }
+    #[verifier::external_body]
+    fn le(&self, other: &Self) -> (b: bool)
+        ensures b ==> (reached(*other) ==> reached(*self)), !b ==> (reached(*self) ==> reached(*other)) { unimplemented!() }
 }
 pub assume_specification [core::time::Duration::from_nanos] (_0: u64) -> (r: core::time::Duration);
 /// std::thread::sleep / yield_now / hint::spin_loop / available_parallelism: return, touch nothing
